@@ -323,7 +323,7 @@ class T:
         return r
 
     def prove(self, clause, goal, assumptions=(), kind="ensures", replay=None, timeout_ms=None, use_pre=True,
-              tactic=None):
+              tactic=None, retry=True):
         """pre /\\ facts /\\ assumptions => goal."""
         if self.clause_filter is not None and not self.clause_filter.search(clause):
             return None  # this task runs as a dependency of another property: only the clauses that property consumes
@@ -333,7 +333,7 @@ class T:
         asm = base + relevant_facts(self.ctx.facts, base + [goal])
         budget = timeout_ms or self.timeout_ms
         res = solve.check_valid(asm, goal, budget, tactic=tactic)
-        if res["status"] == "unknown" and budget < 60000 and "timeout" in str(res.get("detail", "")):
+        if retry and res["status"] == "unknown" and budget < 60000 and "timeout" in str(res.get("detail", "")):
             # a verdict must not flip with machine load: one retry with a four-fold budget before giving up
             res2 = solve.check_valid(asm, goal, 4 * budget, tactic=tactic)
             if res2["status"] != "unknown":
